@@ -17,6 +17,7 @@ mod c19;
 mod c21;
 mod c22;
 mod c23;
+mod c24;
 mod c25;
 mod c26;
 mod c27;
@@ -92,6 +93,7 @@ fn main() {
         "c21" => c21::main(&args),
         "c22" => c22::main(&args),
         "c23" => c23::main(&args),
+        "c24" => c24::main(&args),
         "c25" => c25::main(&args),
         "c26" => c26::main(&args),
         "c27" => c27::main(&args),
